@@ -11,6 +11,24 @@ use std::time::Instant;
 pub type N = &'static str;
 pub type G2 = Graph<N, ()>;
 pub const NAMES8: [N; 8] = ["a", "b", "c", "d", "e", "f", "g", "h"];
+pub const NAMES32: [N; 32] = [
+    "n00", "n01", "n02", "n03", "n04", "n05", "n06", "n07", "n08", "n09", "n10", "n11", "n12", "n13", "n14", "n15", "n16", "n17", "n18", "n19", "n20", "n21", "n22", "n23", "n24", "n25", "n26", "n27",
+    "n28", "n29", "n30", "n31",
+];
+
+/// a graph given explicitly (up to 32 nodes); nodes are inserted in descending name order
+pub fn build_custom(kind: Kind, n: usize, edges: &[(usize, usize, f64)], label: &str) -> Built {
+    let names: Vec<N> = NAMES32[..n].to_vec();
+    let node_order: Vec<usize> = (0..n).rev().collect();
+    let mut g = G2::new(kind.specs());
+    for &i in &node_order {
+        g.add_node(Node::from_name(names[i]));
+    }
+    for &(u, v, w) in edges {
+        g.add_edge(std::sync::Arc::new(Edge { u: names[u], v: names[v], weight: w, attributes: None })).expect("custom build: add_edge failed");
+    }
+    Built { kind, n, names, edges: edges.to_vec(), node_order, g, case: format!("custom:{label}"), weighted: edges.iter().all(|e| !e.2.is_nan()) && !edges.is_empty() }
+}
 
 #[derive(Clone, Copy, Debug, PartialEq, Eq)]
 pub struct Kind {
